@@ -23,7 +23,7 @@ SINGLE_THREAD_RAPIDFUZZ = True
 EDGE_POOL_Q = (0, 0.5, 1, 2, 3)
 EDGE_POOL_T = (0, 0.5, 1, 2, 3, 4)
 METRICS = ("default", "Levenshtein", "WLev123", "LenDiff")
-NP = ((False, 0), (True, 0), (True, 0.5), (True, 1))
+NP = ((False, 0), (False, 0.5), (True, 0), (True, 0.5), (True, 1))     # raw counts must stay raw counts whatever the pseudocount
 CD = ("CA", "CS", "AS")   # two-letter CDR3 alphabet for the tables
 
 
@@ -73,7 +73,7 @@ def ref_values(name, seqs, seqs2):
 def expected(values, edges, normalize, pc):
     counts = ref_hist(values, edges)
     if not normalize:
-        return counts
+        return counts           # the pseudocount only enters the normalised form
     tot = sum(counts)
     if not pc:
         return [c / tot if tot else float("nan") for c in counts]
@@ -345,6 +345,12 @@ def _check_table(acc, case):
     exp = expected(values, edges, False, 0)
     if not same(r, exp, False):
         acc.fail("pcDelta/legacy-tuple", case, exp, r)
+        return
+    acc.ok()
+    # the two chains as Series from differently indexed tables: paired by position
+    r = acc.call(pyrepseq.pcDelta, (pd.Series(A, index=range(n)), pd.Series(B, index=range(n - 1, -1, -1))), bins=edges, normalize=False)
+    if not same(r, exp, False):
+        acc.fail("pcDelta/legacy-tuple-of-series", case, exp, r)
         return
     acc.ok()
 
